@@ -84,7 +84,7 @@ impl State for S {
                     Err(_) => "err".into(),
                 }
             }
-            ["source"] => {
+            ["source", ..] => {
                 let Some(db) = self.db.clone() else { return "bad-op".into() };
                 view(&db.snapshot(), self.next_tx.max(1) + 1)
             }
@@ -118,7 +118,7 @@ impl State for S {
                 }
                 None => "no-backup".into(),
             },
-            ["restore"] => {
+            ["restore", ..] => {
                 let Some(id) = self.last.clone() else { return "no-backup".into() };
                 let Ok(uuid) = id.parse() else { return "bad-id".into() };
                 let bdir = self.base().join(format!("bk{}", self.nbackup));
@@ -148,6 +148,7 @@ fn generate(rng: &mut Rng, n: usize, _tier: &str, out: &mut dyn Write) {
         let len = (5 + rng.below(10) as usize).min(left.max(4));
         let mut txs = 0;
         let mut runs = 0;
+        let mut nrest = 0;
         for _ in 0..len {
             match rng.below(10) {
                 0..=3 if txs < 6 => {
@@ -161,7 +162,8 @@ fn generate(rng: &mut Rng, n: usize, _tier: &str, out: &mut dyn Write) {
                 }
                 5 | 6 => {
                     writeln!(out, "backup").unwrap();
-                    writeln!(out, "restore").unwrap();
+                    nrest += 1;
+                    writeln!(out, "restore r{}_{}", case, nrest).unwrap();
                 }
                 7 | 8 => {
                     writeln!(out, "backup_until").unwrap();
@@ -177,9 +179,13 @@ fn generate(rng: &mut Rng, n: usize, _tier: &str, out: &mut dyn Write) {
                         }
                     }
                     writeln!(out, "backup_resume").unwrap();
-                    writeln!(out, "restore").unwrap();
+                    nrest += 1;
+                    writeln!(out, "restore r{}_{}", case, nrest).unwrap();
                 }
-                _ => writeln!(out, "source").unwrap(),
+                _ => {
+                    nrest += 1;
+                    writeln!(out, "source r{}_{}", case, nrest).unwrap()
+                }
             }
         }
         left = left.saturating_sub(len);
